@@ -6,6 +6,8 @@ package main
 // read-only and bad requests).
 
 import (
+	"crypto/sha1"
+	"encoding/base64"
 	"bytes"
 	"encoding/json"
 	"fmt"
@@ -27,6 +29,7 @@ type apiPools struct {
 	cashLts        []namedBytes // bodies for add-cash-letter
 	clIDs          []string
 	mistypeDocs    [][]byte // one forward and one return document, sources of the mistyped-member bodies
+	twinDocs       [3][]byte // two files that are equal but for the CONTENT of their images (base64 text of equal length), IDs "twin-p" / "twin-q"
 }
 
 type namedBytes struct {
@@ -229,6 +232,41 @@ func buildPools(r rng, n int) *apiPools {
 			// the zone offsets are written into the document text (not left to the library's own encoder)
 			js = regexp.MustCompile(`("payorBankBusinessDate":")(\d{4}-\d\d-\d\d)T[^"]*"`).ReplaceAll(js, []byte(`${1}${2}T22:30:00-05:00"`))
 			p.zonedReturnDoc = js
+		}
+	}
+	// a file and its corrected resubmission: same items, same image lengths, different image content (carried as
+	// base64 text, the form whose decoding the renderer does on every read)
+	for tries := 0; tries < 40 && p.twinDocs[0] == nil; tries++ {
+		f, err := genFile(r, genOpts{maxCL: 1, maxBundles: 1, maxItems: 1, mutateP: 20, kind: 1})
+		if err != nil {
+			continue
+		}
+		// exactly one image in the file: the image rendered last for one twin is the one rendered first for the other
+		views := 0
+		mk := func(salt byte) []byte {
+			g := deepCopyFile(f)
+			for ci := range g.CashLetters {
+				for _, b := range g.CashLetters[ci].Bundles {
+					for _, cd := range b.Checks {
+						for j := range cd.ImageViewData {
+							raw := bytes.Repeat([]byte{'A' + salt, 'b', '0' + salt, 'z'}, 6)
+							if salt == 2 {
+								raw = append(raw, "-third-"...) // the third file's image has another length
+							}
+							cd.ImageViewData[j].ImageData = []byte(base64.StdEncoding.EncodeToString(raw))
+							cd.ImageViewData[j].LengthImageData = fmt.Sprintf("%07d", len(raw))
+							views++
+						}
+					}
+				}
+			}
+			g.ID = map[byte]string{0: "twin-p", 1: "twin-q", 2: "twin-r"}[salt]
+			js, _ := json.Marshal(g)
+			return js
+		}
+		a, b, c := mk(0), mk(1), mk(2)
+		if views == 3 {
+			p.twinDocs = [3][]byte{a, b, c}
 		}
 	}
 	doc := p.jsonDocs[0]
@@ -926,7 +964,15 @@ func runAPI(cfg *config, prop string) *Report {
 				directed = append([]directedHist{{false, reqs}}, directed...)
 			}
 		}
-		// a well-filled store: thirty files created one after the other (the server draws the IDs), the last one read,
+		// twins: the rendering of one file must not depend on which file was rendered before it
+		if pools.twinDocs[0] != nil {
+			reqs := []*apiReq{{Kind: "c1", Body: pools.twinDocs[0], CT: "application/json", Src: "clean"}, {Kind: "c1", Body: pools.twinDocs[1], CT: "application/json", Src: "clean"},
+				{Kind: "c1", Body: pools.twinDocs[2], CT: "application/json", Src: "clean"},
+				{Kind: "cont", ID: "twin-p"}, {Kind: "cont", ID: "twin-q"}, {Kind: "cont", ID: "twin-r"}, {Kind: "cont", ID: "twin-q"}, {Kind: "cont", ID: "twin-p"}, {Kind: "get", ID: "twin-q"},
+				{Kind: "cont", ID: "twin-r"}, {Kind: "cont", ID: "twin-p"}, {Kind: "cont", ID: "twin-q"}, {Kind: "list"}}
+			directed = append([]directedHist{{false, reqs}}, directed...)
+		}
+		// a well-filled store: more than two hundred files created one after the other (the server draws the IDs), the last one read,
 		// the list fetched, the last one read again (limits and paging of the list must not touch what is stored)
 		if len(pools.jsonDocs) > 0 {
 			big := 0
@@ -935,17 +981,27 @@ func runAPI(cfg *config, prop string) *Report {
 					big = k
 				}
 			}
+			small := 0
+			for k := range pools.jsonDocs {
+				if len(pools.jsonDocs[k]) < len(pools.jsonDocs[small]) {
+					small = k
+				}
+			}
 			var reqs []*apiReq
 			for i := 0; i < 30; i++ {
 				reqs = append(reqs, &apiReq{Kind: "c2", Body: pools.jsonDocs[(big+i)%len(pools.jsonDocs)], CT: "application/json", Src: "clean"})
+			}
+			// past any page size a listing might apply by default: every stored file is listed
+			for i := 0; i < 180; i++ {
+				reqs = append(reqs, &apiReq{Kind: "c2", Body: pools.jsonDocs[small], CT: "application/json", Src: "clean"})
 			}
 			reqs = append(reqs, &apiReq{Kind: "c2", Body: pools.jsonDocs[big], CT: "application/json", Src: "clean"},
 				&apiReq{Kind: "get", ID: "@last"}, &apiReq{Kind: "cont", ID: "@last"}, &apiReq{Kind: "list"}, &apiReq{Kind: "get", ID: "@last"},
 				&apiReq{Kind: "cont", ID: "@last"}, &apiReq{Kind: "list"}, &apiReq{Kind: "val", ID: "@last"}, &apiReq{Kind: "get", ID: "@last"})
 			directed = append([]directedHist{{false, reqs}}, directed...)
 		}
-		if cfg.tier != "thorough" && len(directed) > 12 {
-			directed = directed[:12]
+		if cfg.tier != "thorough" && len(directed) > 13 {
+			directed = directed[:13]
 		}
 		nHist += len(directed)
 	}
@@ -1004,7 +1060,20 @@ func runAPI(cfg *config, prop string) *Report {
 			rep.violate(Violation{Key: prop + ":driver-shape", What: "driver answered " + outs[h], Replay: map[string]any{"history": reqsOf(hi.steps)}, NoInput: true})
 			continue
 		}
+		// what each read answered since the last request that may change the store
+		lastRead := map[string]string{}
 		for i, s := range hi.steps {
+			if !isReadKind(s.q.Kind) {
+				lastRead = map[string]string{}
+			} else if s.q.Kind != "list" && s.r.Dropped == "" {
+				k := s.q.Kind + " " + s.q.ID + " " + s.q.Accept
+				cur := fmt.Sprintf("%d %x", s.r.Status, sha1.Sum(s.r.Body))
+				if prev, ok := lastRead[k]; ok && prev != cur {
+					rep.violate(Violation{Key: "C14:read-answered-differently:" + s.q.Kind, What: "the same read-only request is answered differently although only read-only requests were made in between",
+						Replay: map[string]any{"history": reqsOf(hi.steps[:i+1]), "failing_request_index": i, "request": s.q.Kind + " " + s.q.ID, "earlier": prev, "now": cur, "real_body_head": headStr(s.r.Body, 300)}})
+				}
+				lastRead[k] = cur
+			}
 			rep.Evaluations++
 			rep.CorrOps++
 			rep.count("kind:" + s.q.Kind)
@@ -1101,7 +1170,12 @@ func loadAPIReplay(path string) [][]*apiReq {
 }
 
 func runC11(cfg *config) *Report { return runAPI(cfg, "C11") }
-func runC13(cfg *config) *Report { return runAPI(cfg, "C13") }
+func runC13(cfg *config) *Report {
+	rep := runAPI(cfg, "C13")
+	// malformed requests behind uploads that broke off part-way (in-process, with a body reader that fails)
+	rep.Evaluations += afterCutUploads(rep, newRng(cfg.seed+13500), "C13")
+	return rep
+}
 func runC14(cfg *config) *Report { return runAPI(cfg, "C14") }
 
 var _ = icl.NewFile
